@@ -1885,3 +1885,42 @@ Q(name="e2_handle_timeout_iteration", props=["C08"], func=r"connection/mod\.rs:2
   functions=["Connection::handle_timeout (one iteration of its loop over Timer::VALUES, every timer)"], pre=lambda c: "true", post=ht_post,
   bounds="one iteration for an arbitrary timer (the timer value read from Timer::VALUES is unconstrained) from an arbitrary connection state: no arm of handle_timeout stores `true` into permit_idle_reset - a keep-alive or any other self-generated event must not let the connection restart its own idle timer; writes made inside the opaque handlers it calls are outside",
   replay=("conn_keep_alive_idle_native", lambda m: [dict(x=0)]))
+
+
+# ------------------------------------------------------------------ C16 / C13: after an MTU reduction EVERY queued datagram that no longer fits is dropped, wherever it sits in the queue
+def dro_post(c, p):
+    st = p.p.state
+    out = "*_1.%d" % c.field("connection/datagrams.rs", "DatagramState", "outgoing")
+    rt = [x for x in st.calls if re.search(r"VecDeque.*::retain(_mut)?$", x[0])]
+    others = [x for x in st.calls if x[1] and x[1][0][0] == "ref" and (str(x[1][0][1]) == out or str(x[1][0][1]).startswith(out + ".")) and x not in rt]
+    # the queue is filtered as a whole (the predicate is decided by e2_drop_oversized_predicate); no other access
+    # pattern - such as popping from the front until one fits - leaves oversized datagrams behind smaller ones
+    ok = len(rt) == 1 and rt[0][1][0] == ("ref", out) and not others
+    return "true" if ok else "false"
+
+
+Q(name="e2_drop_oversized_whole_queue", props=["C16", "C13"], func=r"datagrams\.rs[^>]*>::drop_oversized$",
+  loop_is_stop=True, check_stop=True, allowed_panics=r".",
+  functions=["DatagramState::drop_oversized"], pre=lambda c: "true", post=dro_post,
+  bounds="every state: the outgoing queue is handed, exactly once and as a whole, to VecDeque::retain with the size predicate; it is not walked by any other means (std's retain visits every element)",
+  replay=("dgram_drop_oversized_native", lambda m: [dict(first_big=0), dict(first_big=1)]))
+
+
+def drp_post(c, p):
+    st = p.p.state
+    n = c.inp("*_2.0.1", BV64)                 # datagram.data.len()
+    maxp = c.inp("**_1.0", BV64)               # captured &max_payload
+    total = "**_1.1"                           # captured &mut self.outgoing_total
+    flag = "**_1.2"                            # captured &mut dropped_any
+    keep = ult(n, maxp)
+    rd = lambda k, s: c.ex.read_key(st, k, s).t
+    return and_(eq(rd("_0", BOOL), keep),
+                imp(keep, and_(eq(rd(total, BV64), c.inp(total, BV64)), eq(rd(flag, BOOL), c.inp(flag, BOOL)))),
+                imp(not_(keep), and_(eq(rd(total, BV64), "(bvsub %s %s)" % (c.inp(total, BV64), n)), rd(flag, BOOL))))
+
+
+Q(name="e2_drop_oversized_predicate", props=["C16", "C13"], func=r"datagrams\.rs[^>]*>::drop_oversized::\{closure#0\}$",
+  allowed_panics=r"attempt to compute",
+  functions=["DatagramState::drop_oversized::{closure#0} (the predicate handed to VecDeque::retain)"], pre=lambda c: "true", post=drp_post,
+  bounds="every datagram length, limit and byte total: a datagram is kept iff its payload is strictly shorter than the limit; a dropped one is subtracted from outgoing_total and reported through the dropped-any flag",
+  replay=("dgram_drop_oversized_native", lambda m: [dict(first_big=0), dict(first_big=1)]))
